@@ -102,6 +102,12 @@ def build(scratch_root=None, models=None, shared_prelude=True):
     tt = _strip_section(tt, r"^\[\[bench\]\]")
     tt = _strip_section(tt, r"^\[dev-dependencies\]")
     open(pp, "w").write(tt)
+    # verification-only constructors for the C-interface harnesses (cfg(kani); see harness/plain_hooks)
+    for name, rel in (("encrypt.rs", "src/layers/encrypt.rs"), ("config.rs", "src/config.rs"), ("lib.rs", "src/lib.rs")):
+        hook = os.path.join(VERIF, "harness", "plain_hooks", name)
+        if os.path.isfile(hook) and os.path.isfile(os.path.join(plain, rel)):
+            with open(os.path.join(plain, rel), "a") as f:
+                f.write(open(hook).read())
 
     # --- bindings/C/Cargo.toml
     p = os.path.join(ov, "bindings", "C", "Cargo.toml")
